@@ -1189,6 +1189,9 @@ class Interp:
         if isinstance(f, SuperProxy):
             raise exc("TypeError")
         if isinstance(f, Opaque) and getattr(f, "is_parallel", False):
+            if isinstance(args[0], SArr) and args[0].ndim == 1 and is_sym(args[0].len):
+                # tasks over a sequence of symbolic length (element-wise closure): the list of results, in submission order
+                return args[0].with_kind("list")
             return SList(self.iter_concrete(args[0]), "list")
         if callable(f) and getattr(f, "_pyvc_native", False):
             return f(self, args, kwargs)
